@@ -14,6 +14,12 @@ CHECKS = {
         text='Every argument text up to length 3 (thorough: 4, 3.3 M plans) over a 34-symbol metacharacter alphabet in each quoting style of the statement and six position templates, all ordered pairs of texts of length <= 1 in all style pairs and all lists of 0..6 operator-like arguments are planned by the real CommandLine::from_line in an adversarial environment (matching files, variables, aliases); the plan must be the verbatim argv with no background flag, redirection or assignment. The length <= 1 cases and operator-like pairs are also executed by the real binary.',
         note='Texts longer than the bound and words mixing quoting styles are outside the bound; plan level is bound to execution by the replayed subset.',
         ref='DESIGN.md §4 C01'),
+    'C02': dict(
+        engine='E3 controlled-schedule exploration of the real binary (exit gates)',
+        technique='exhaustive enumeration of all stage exit orders (all n! gate-release permutations) x payload sizes x stage kinds x endings on the real binary under a controlled scheduler (exit gates), no timing, no sampling',
+        text='Every external stage is a helper that moves its data, closes its ends and blocks on a private exit gate; the explorer releases the gates in every permutation (n = 1..4: all 33 orders; thorough also all 120 orders of n = 5 and a seventh of n = 6), waiting for each released stage to be gone before the next, with payloads from 0 bytes to 4 pipe buffers, all vectors of stage kinds (copier, non-reader, builtin, failing, not-found) for n <= 3 and the exit codes / terminating signals of the last stage for n in {1,2}. Oracle: byte count and checksum at the sink, each stage started once, the shell returns only after every stage is gone (an early return is deterministic because unreleased gates keep stages alive), status of the last stage (128+signal), termination.',
+        note='Exit order is forced, not timed; helpers see EPIPE instead of dying from SIGPIPE; a suspected hang is confirmed alone with a longer limit and three confirmed hangs stop the run (reported as cap).',
+        ref='DESIGN.md §4 C02'),
     'C03': dict(
         engine='E1 bounded-exhaustive program enumeration on the real binary',
         technique='bounded-exhaustive enumeration of all operator/status programs up to a length, executed by the real binary and compared step by step with a reference interpreter (no sampling)',
